@@ -13,7 +13,8 @@ CONSTANTS
   NewNames <- L_NewNames
   APlus = "add"
   ATimes = "mul"
-  Tag = "semiring_maxmul"
+  Tag = "adj_addmul"
 INVARIANT Inv_TypeSound
-INVARIANT Emit
+INVARIANT Inv_AdjDefinitional
+INVARIANT EmitAdj
 CHECK_DEADLOCK FALSE
